@@ -346,6 +346,10 @@ func (e *engine) onEvent(ev verifvfs.Event) {
 		if ev.Op == "rename" && ev.OK && ev.Paths[1] == listPath {
 			e.onListChange(ev)
 		}
+		if ev.OK && ev.Paths[0] == listPath {
+			// tables.list itself was unlinked or moved away: the committed state is now "no tables"
+			e.onListChange(ev)
+		}
 		if ev.Op == "rename" && ev.OK && isLock(ev.Paths[1]) {
 			e.lockOwner[ev.Paths[1]] = p
 		}
